@@ -309,6 +309,7 @@ def main(argv):
         from .verify import verify_function
         opts = {'procs': a.procs, 'z3_ms': 10000 if a.tier == 'quick' else 60000,
                 'cvc5_ms': 10000 if a.tier == 'quick' else 60000, 'argnames': argnames_fn(a.repo)}
+        opts['skip_kinds'] = P.get('skip_obligation_kinds')
         kf = D.load_known_findings()
         findings = kf.get('findings', [])
         for qual in P.get('functions', []):
